@@ -364,12 +364,15 @@ pub fn transcript(prog: &Prog, ops: &[Op]) -> (u64, RunInfo) {
     let mut h = Fnv::new();
     for op in ops.iter() {
         info.steps += 1;
+        let ids_before: usize = (0..p.sorts.len()).map(|s| m.n_ids(s)).sum();
         let (res, args) = apply_op(prog, m.as_mut(), op, &|v, k| {
             // iteration order at every poll is part of the observable behaviour
             let _ = (v, k);
         });
         h.str(&format!("{res:?}{args:?}"));
         if let OpResult::Closed { polls, budget_hit, ret } = res {
+            let ids_after: usize = (0..p.sorts.len()).map(|s| m.n_ids(s)).sum();
+            info.new_elements_by_close += (ids_after - ids_before) as u64;
             info.polls += polls as u64;
             if ret {
                 info.closes_cancelled += 1;
